@@ -434,7 +434,16 @@ impl<'a> World<'a> {
             let Ok(Some(obj)) = radicle::cob::get::<issue::Issue, _>(&repo, &type_name, &id) else { return };
             let root = *obj.object.root().0;
             let missing: radicle::cob::thread::CommentId = self.commits[0]; // not a comment of this issue
-            let acts: Vec<issue::Action> = match self.ch.pick(5) {
+            let acts: Vec<issue::Action> = match self.ch.pick(6) {
+                5 => {
+                    // one action that is rejected inside the thread (the target does not exist)
+                    kind = "single-action-on-missing-target";
+                    match self.ch.pick(3) {
+                        0 => vec![issue::Action::CommentEdit { id: missing, body: self.tag(r, 'B'), embeds: vec![] }],
+                        1 => vec![issue::Action::CommentRedact { id: missing }],
+                        _ => vec![issue::Action::CommentReact { id: missing, reaction: Reaction::new('🎉').unwrap(), active: true }],
+                    }
+                }
                 4 => {
                     kind = "forged-signature";
                     forged = true;
@@ -466,7 +475,17 @@ impl<'a> World<'a> {
             type_name = patch::TYPENAME.clone();
             let Ok(Some(obj)) = radicle::cob::get::<patch::Patch, _>(&repo, &type_name, &id) else { return };
             let (rev, _) = obj.object.root();
-            let acts: Vec<patch::Action> = match self.ch.pick(4) {
+            let acts: Vec<patch::Action> = match self.ch.pick(5) {
+                4 => {
+                    kind = "single-action-on-missing-target";
+                    let missing_c = self.commits[0];
+                    match self.ch.pick(4) {
+                        0 => vec![patch::Action::RevisionCommentEdit { revision: rev, comment: missing_c, body: self.tag(r, 'B'), embeds: vec![] }],
+                        1 => vec![patch::Action::RevisionCommentRedact { revision: rev, comment: missing_c }],
+                        2 => vec![patch::Action::ReviewEdit { review: patch::ReviewId::from(missing_c), summary: Some(self.tag(r, 'S')), verdict: None, labels: vec![] }],
+                        _ => vec![patch::Action::RevisionEdit { revision: patch::RevisionId::from(missing_c), description: self.tag(r, 'B'), embeds: vec![] }],
+                    }
+                }
                 3 => {
                     kind = "forged-signature";
                     forged = true;
